@@ -13,6 +13,9 @@ import (
 
 func (k *kernel) use(v *variable) {
 	v.used = true
+	if k.mode == mKernel && !k.inLoop && !k.inFinal && v.param && v.state {
+		k.preReadsStateParam = true // the value on entry of a parameter that the loop carries: not available inside step
+	}
 	if k.mode == mKernel && !v.inLoop && (!v.param || v.reassigned) && !v.state && (k.inLoop || k.inFinal) && k.liveIn != nil {
 		k.liveIn[v] = true
 	}
@@ -37,28 +40,54 @@ func (k *kernel) typedSignature(r *funcRef) (ins, outs []string, ok bool) {
 		return nil, nil, false
 	}
 	imp := imports(r.f)
-	_, pts := fields(r.fd.Type.Params)
-	for _, t := range pts {
+	pns, pts := paramFields(r.fd)
+	for i, t := range pts {
+		if st, ptr := k.w.structOf(r.p, t); st != nil { // a struct parameter (a method's receiver): one parameter per field
+			if ptr && (pns[i] == nil || assignsThrough(r.fd, pns[i].Name)) {
+				return nil, nil, false
+			}
+			ins = append(ins, structMarker(st))
+			continue
+		}
+		if k.isSeriesType(t, imp) && pns[i] != nil && passedWholeOnly(r.fd, pns[i].Name) { // a series the function only hands on: σ
+			ins = append(ins, "σ")
+			continue
+		}
 		lt := k.leanType(t, imp, false)
 		if lt == "" {
 			return nil, nil, false
 		}
 		ins = append(ins, lt)
 	}
-	_, rts := fields(r.fd.Type.Results)
-	for _, t := range rts {
-		lt := k.leanType(t, imp, false)
-		if lt == "" {
-			return nil, nil, false
-		}
-		outs = append(outs, lt)
+	gouts, ok := k.goResultTypes(r)
+	if !ok {
+		return nil, nil, false
 	}
+	outs = k.w.flatTypes(gouts)
 	return ins, outs, len(outs) > 0
 }
 
 // an argument of the given Lean type, as an atom
 func (k *kernel) argOf(a ast.Expr, typ string) string {
+	if st := k.w.structByMarker(typ); st != nil {
+		var atoms []string
+		for _, s := range k.structValues(a, st) {
+			atoms = append(atoms, paren(s, map[bool]int{true: pAtom, false: 0}[isAtom(s)], pAtom))
+		}
+		return strings.Join(atoms, " ")
+	}
 	switch typ {
+	case "σ":
+		if id, ok := unparen(a).(*ast.Ident); ok {
+			if v := k.lookup(id.Name); v != nil && v.kind == vSeries {
+				for _, t := range k.tables {
+					if t == v {
+						return v.lean
+					}
+				}
+			}
+		}
+		k.fail(a, "argument that is not a series passed whole where one is expected")
 	case "Int":
 		s, p := k.intExpr(a)
 		return paren(s, p, pAtom)
@@ -109,7 +138,8 @@ func (k *kernel) callTyped(e *ast.CallExpr) (string, []string, bool) {
 		return "", nil, false
 	}
 	h := k.helper(e, r)
-	if len(e.Args) != h.nin || e.Ellipsis.IsValid() {
+	goArgs := callArgs(e, r)
+	if len(goArgs) != h.nin || e.Ellipsis.IsValid() {
 		k.fail(e, "call of %s with %d arguments", h.lean, len(e.Args))
 	}
 	if h.partial && !allow {
@@ -119,7 +149,7 @@ func (k *kernel) callTyped(e *ast.CallExpr) (string, []string, bool) {
 	for _, a := range h.absFns {
 		args = append(args, k.needAbs(a).lean)
 	}
-	for i, a := range e.Args {
+	for i, a := range goArgs {
 		if h.drop != nil && h.drop[i] {
 			continue // an int parameter the callee does not use
 		}
@@ -135,7 +165,7 @@ func explicitAlpha(h *helperDef, caps []*variable) string {
 		return ""
 	}
 	for i, t := range h.ins {
-		if (h.drop == nil || !h.drop[i]) && (t == "α" || t == "List α") {
+		if (h.drop == nil || !h.drop[i]) && (t == "α" || t == "List α" || strings.HasPrefix(t, "{")) {
 			return ""
 		}
 	}
@@ -338,7 +368,7 @@ func (k *kernel) closure(id *ast.Ident, lit *ast.FuncLit) {
 	})
 	k.restoreCtx(saved)
 	// the definition
-	sort.SliceStable(c.caps, func(i, j int) bool { return c.caps[i].declPos < c.caps[j].declPos })
+	sort.SliceStable(c.caps, func(i, j int) bool { return declLess(c.caps[i], c.caps[j]) })
 	name := id.Name
 	if k.helperOf != "" {
 		name = k.helperOf + "_" + id.Name
@@ -378,7 +408,7 @@ func (k *kernel) closure(id *ast.Ident, lit *ast.FuncLit) {
 		abs += fmt.Sprintf(" (%s : %s)", a.lean, a.typ)
 	}
 	h.absFns = c.absFns
-	fmt.Fprintf(&b, "def %s {α : Type} [Num α]%s%s%s : %s :=\n%s\n", name, abs, binderVs(c.caps), binderVs(params), ret, strings.Join(lines, "\n"))
+	fmt.Fprintf(&b, "@[gen_unfold] def %s {α : Type} [Num α]%s%s%s : %s :=\n%s\n", name, abs, binderVs(c.caps), binderVs(params), ret, strings.Join(lines, "\n"))
 	h.text = b.String()
 	c.h = h
 	k.hs.order = append(k.hs.order, h)
